@@ -1,9 +1,688 @@
-"""placeholder (replaced below)"""
+"""C02, tie A: Gen/Pack.v is regenerated on every run from the small pure pieces that package the outputs of a
+derivative calculation:
+
+    idmanager.expressions_names_indices              -> expressions_names_indices
+    function_output.convert_to_dict                  -> convert_to_dict
+    BiogemeDisaggregateFunctionOutput.unique_entry   -> unique_entry
+    calculator.calculate_function_and_derivatives    -> engine_flags, select   (what follows getResults())
+    Expression.get_value_and_derivatives             -> gvd_refuses, gvd_flags
+    BIOGEME.calculate_likelihood_and_derivatives     -> clad_literal_ids, clad_scale
+    Named*FunctionOutput.__init__                    -> named_vector, named_matrix (+ which fields use which)
+
+A specialised, fail-closed extractor: the statement skeleton of each function is pattern-matched (anything else raises
+Untranslatable = broken tie) and every expression in it (tests, indices, operators, operands, keyword wiring) is
+translated by the typed mini-translator below, so a semantic edit of the source changes the generated definition and
+breaks a proof of Proofs/PackP.v.
+
+Stream `pack`: the generated functions are evaluated by vm_compute on symbolic tokens / integers and compared with what
+the Python wrappers return for engine results replaced by tagged arrays."""
+import ast
+import json
+
+from py2v import Untranslatable
+from common import REPO, coq_string, coq_list, coq_bool, parse_bools
+
+
+def U(n):
+    return ast.unparse(n)
+
+
+def need(c, msg):
+    if not c:
+        raise Untranslatable(msg)
+
+
+# ----------------------------------------------------------------------------------------- types
+# ('Z',) ('bool',) ('R',) ('string',) ('none',) ('tok', name) ('list', T) ('opt', T) ('dict', T) ('pair', A, B) ('vec',) ('mat',)
+def ty(t):
+    k = t[0]
+    if k in ('Z', 'bool', 'R', 'string', 'vec', 'mat'):
+        return k
+    if k == 'tok':
+        return t[1]
+    if k == 'list':
+        return f'(list {ty(t[1])})'
+    if k == 'opt':
+        return f'(option {ty(t[1])})'
+    if k == 'dict':
+        return f'(list (string * {ty(t[1])}))'
+    if k == 'pair':
+        return f'({ty(t[1])} * {ty(t[2])})'
+    raise Untranslatable(f'no Gallina type for {t}')
+
+
+class Mini:
+    """typed translator of the expression subset used by the packaging code"""
+
+    def __init__(self, what, defaults=None, calls=None):
+        self.what = what
+        self.defaults = defaults or {}
+        self.calls = calls or {}
+        self.fresh = 0
+
+    def fail(self, node, msg):
+        raise Untranslatable(f'{self.what}:{getattr(node, "lineno", "?")}: {msg}: {U(node)[:100]!r}')
+
+    def default(self, t, node):
+        if t[0] == 'opt':
+            return 'None'
+        if t[0] == 'R':
+            return '0%R'
+        if t[0] == 'Z':
+            return '0%Z'
+        if t[0] in ('list', 'dict', 'vec', 'mat'):
+            return '[]'
+        if t in self.defaults:
+            return self.defaults[t]
+        self.fail(node, f'no default value for {t}')
+
+    def dotted(self, n):
+        if isinstance(n, ast.Name):
+            return n.id
+        if isinstance(n, ast.Attribute):
+            b = self.dotted(n.value)
+            return None if b is None else b + '.' + n.attr
+        return None
+
+    def is_none_test(self, n):
+        """(X, positive?) for `X is not None` / `X is None`"""
+        if isinstance(n, ast.Compare) and len(n.ops) == 1 and isinstance(n.comparators[0], ast.Constant) \
+                and n.comparators[0].value is None and isinstance(n.ops[0], (ast.Is, ast.IsNot)):
+            return n.left, isinstance(n.ops[0], ast.IsNot)
+        return None
+
+    def expr(self, n, env):
+        if isinstance(n, ast.Constant):
+            v = n.value
+            if isinstance(v, bool):
+                return ('true' if v else 'false'), ('bool',)
+            if isinstance(v, int):
+                return (f'{v}%Z' if v >= 0 else f'({v})%Z'), ('Z',)
+            if v is None:
+                return 'None', ('none',)
+            self.fail(n, 'unsupported constant')
+        d = self.dotted(n)
+        if d is not None and isinstance(n, (ast.Name, ast.Attribute)):
+            if d in env:
+                return env[d]
+            self.fail(n, f'unknown name {d}')
+        if isinstance(n, ast.UnaryOp) and isinstance(n.op, ast.Not):
+            c, t = self.expr(n.operand, env)
+            need(t == ('bool',), f'{self.what}: `not` on {t}')
+            return f'(negb {c})', ('bool',)
+        if isinstance(n, ast.BoolOp):
+            parts = []
+            for v in n.values:
+                c, t = self.expr(v, env)
+                if t != ('bool',):
+                    self.fail(v, f'truth value of {t}')
+                parts.append(c)
+            return '(' + (' && ' if isinstance(n.op, ast.And) else ' || ').join(parts) + ')', ('bool',)
+        if isinstance(n, ast.Compare):
+            if len(n.ops) != 1:
+                self.fail(n, 'chained comparison')
+            nt = self.is_none_test(n)
+            if nt is not None:
+                c, t = self.expr(nt[0], env)
+                if t[0] != 'opt':
+                    self.fail(n, f'`is None` on {t}')
+                return (f'(isSome {c})' if nt[1] else f'(negb (isSome {c}))'), ('bool',)
+            a, ta = self.expr(n.left, env)
+            b, tb = self.expr(n.comparators[0], env)
+            op = type(n.ops[0])
+            if ta == ('Z',) and tb == ('Z',):
+                tbl = {ast.Eq: '=?', ast.Lt: '<?', ast.LtE: '<=?', ast.Gt: '>?', ast.GtE: '>=?'}
+                if op is ast.NotEq:
+                    return f'(negb ({a} =? {b})%Z)', ('bool',)
+                if op not in tbl:
+                    self.fail(n, 'unsupported comparison')
+                return f'({a} {tbl[op]} {b})%Z', ('bool',)
+            if ta == ('R',) and tb in (('R',), ('Z',)) and op in (ast.Eq, ast.NotEq):
+                bb = b if tb == ('R',) else f'(IZR {b})'
+                return (f'(Reqb {a} {bb})' if op is ast.Eq else f'(negb (Reqb {a} {bb}))'), ('bool',)
+            self.fail(n, f'comparison of {ta} and {tb}')
+        if isinstance(n, ast.IfExp):
+            # flow typing: `E(X) if X is not None else None` / `None if X is None else E(X)`
+            nt = self.is_none_test(n.test)
+            if nt is not None:
+                xs, positive = nt
+                some_branch, none_branch = (n.body, n.orelse) if positive else (n.orelse, n.body)
+                if isinstance(none_branch, ast.Constant) and none_branch.value is None:
+                    xd = self.dotted(xs)
+                    cx, tx = self.expr(xs, env)
+                    if tx[0] != 'opt' or xd is None:
+                        self.fail(n, f'`is None` on {tx}')
+                    self.fresh += 1
+                    v = f'some_{self.fresh}'
+                    env2 = dict(env)
+                    env2[xd] = (v, tx[1])
+                    cb, tb = self.expr(some_branch, env2)
+                    return f'(match {cx} with Some {v} => Some {cb} | None => None end)', ('opt', tb)
+            c, tc = self.expr(n.test, env)
+            if tc != ('bool',):
+                self.fail(n.test, f'truth value of {tc}')
+            a, ta = self.expr(n.body, env)
+            b, tb = self.expr(n.orelse, env)
+            if ta == tb:
+                return f'(if {c} then {a} else {b})', ta
+            if tb == ('none',) and ta[0] != 'opt':
+                return f'(if {c} then Some {a} else None)', ('opt', ta)
+            if ta == ('none',) and tb[0] != 'opt':
+                return f'(if {c} then None else Some {b})', ('opt', tb)
+            if tb == ('none',) and ta[0] == 'opt':
+                return f'(if {c} then {a} else None)', ta
+            if ta == ('none',) and tb[0] == 'opt':
+                return f'(if {c} then None else {b})', tb
+            self.fail(n, f'branches of types {ta} and {tb}')
+        if isinstance(n, ast.Subscript):
+            a, ta = self.expr(n.value, env)
+            i, ti = self.expr(n.slice, env)
+            if ta[0] != 'list' or ti != ('Z',):
+                self.fail(n, f'subscript {ta}[{ti}]')
+            return f'(py_index {self.default(ta[1], n)} {a} {i})', ta[1]
+        if isinstance(n, ast.BinOp) and isinstance(n.op, ast.Div):
+            a, ta = self.expr(n.left, env)
+            b, tb = self.expr(n.right, env)
+            if tb != ('R',):
+                self.fail(n, f'division by {tb}')
+            if ta == ('R',):
+                return f'({a} / {b})%R', ('R',)
+            if ta == ('vec',):
+                return f'(vdiv {a} {b})', ta
+            if ta == ('mat',):
+                return f'(mdiv {a} {b})', ta
+            self.fail(n, f'division of {ta}')
+        if isinstance(n, ast.Call):
+            f = self.dotted(n.func)
+            if f in self.calls:
+                return self.calls[f](self, n, env)
+            if f == 'len' and len(n.args) == 1 and not n.keywords:
+                a, ta = self.expr(n.args[0], env)
+                if ta[0] not in ('list', 'dict', 'vec', 'mat'):
+                    self.fail(n, f'len of {ta}')
+                return f'(Z.of_nat (List.length {a}))', ('Z',)
+            if f == 'float' and len(n.args) == 1 and not n.keywords:
+                a, ta = self.expr(n.args[0], env)
+                if ta == ('Z',):
+                    return f'(IZR {a})', ('R',)
+                if ta == ('R',) or ta[0] == 'tok':
+                    return a, ta          # float() of a numpy double is the same number
+                self.fail(n, f'float of {ta}')
+            if f == 'np.asarray' and len(n.args) == 1 and not n.keywords:
+                return self.expr(n.args[0], env)
+            if f == 'sorted' and len(n.args) == 1 and not n.keywords:
+                a, ta = self.expr(n.args[0], env)
+                if ta != ('list', ('string',)):
+                    self.fail(n, f'sorted of {ta}')
+                return f'(sorted_names {a})', ta
+            if f == 'enumerate' and len(n.args) == 1 and not n.keywords:
+                a, ta = self.expr(n.args[0], env)
+                if ta[0] != 'list':
+                    self.fail(n, f'enumerate of {ta}')
+                return f'(enumerate {a})', ('list', ('pair', ('Z',), ta[1]))
+            if f == 'any' and len(n.args) == 1 and isinstance(n.args[0], ast.GeneratorExp) and not n.keywords:
+                g = n.args[0]
+                if len(g.generators) != 1 or g.generators[0].ifs or not isinstance(g.generators[0].target, ast.Name):
+                    self.fail(n, 'unsupported generator')
+                it, tit = self.expr(g.generators[0].iter, env)
+                if tit[0] != 'list':
+                    self.fail(n, f'any over {tit}')
+                v = g.generators[0].target.id
+                env2 = dict(env)
+                env2[v] = (v, tit[1])
+                c, tc = self.expr(g.elt, env2)
+                if tc != ('bool',):
+                    self.fail(n, f'any of {tc}')
+                return f'(existsb (fun {v} => {c}) {it})', ('bool',)
+            if isinstance(n.func, ast.Attribute) and n.func.attr in ('values', 'items') and not n.args and not n.keywords:
+                a, ta = self.expr(n.func.value, env)
+                if ta[0] != 'dict':
+                    self.fail(n, f'.{n.func.attr}() of {ta}')
+                if n.func.attr == 'values':
+                    return f'(dict_values {a})', ('list', ta[1])
+                return f'(dict_items {a})', ('list', ('pair', ('string',), ta[1]))
+            self.fail(n, f'call to {f}')
+        if isinstance(n, (ast.ListComp, ast.DictComp)):
+            if len(n.generators) != 1 or n.generators[0].ifs:
+                self.fail(n, 'unsupported comprehension')
+            g = n.generators[0]
+            it, tit = self.expr(g.iter, env)
+            if tit[0] != 'list':
+                self.fail(n, f'comprehension over {tit}')
+            env2 = dict(env)
+            if isinstance(g.target, ast.Name):
+                pat = g.target.id
+                env2[pat] = (pat, tit[1])
+            elif isinstance(g.target, ast.Tuple) and tit[1][0] == 'pair' and len(g.target.elts) == 2 \
+                    and all(isinstance(e, ast.Name) for e in g.target.elts):
+                a_, b_ = g.target.elts[0].id, g.target.elts[1].id
+                pat = f"'({a_}, {b_})"
+                env2[a_] = (a_, tit[1][1])
+                env2[b_] = (b_, tit[1][2])
+            else:
+                self.fail(n, 'unsupported comprehension target')
+            if isinstance(n, ast.ListComp):
+                c, tc = self.expr(n.elt, env2)
+                return f'(List.map (fun {pat} => {c}) {it})', ('list', tc)
+            k, tk = self.expr(n.key, env2)
+            v, tv = self.expr(n.value, env2)
+            if tk != ('string',):
+                self.fail(n, f'dict key of type {tk}')
+            return f'(List.map (fun {pat} => ({k}, {v})) {it})', ('dict', tv)
+        self.fail(n, f'unsupported expression {type(n).__name__}')
+
+
+# ----------------------------------------------------------------------------------------- helpers on the source
+def parse(rel):
+    try:
+        return ast.parse((REPO / rel).read_text())
+    except Exception as e:  # noqa
+        raise Untranslatable(f'{rel}: cannot read / parse: {e}')
+
+
+def find(tree, qual, rel):
+    body = tree.body
+    node = None
+    for p in qual.split('.'):
+        node = next((n for n in body if isinstance(n, (ast.FunctionDef, ast.ClassDef)) and n.name == p), None)
+        need(node is not None, f'{rel}: {qual} not found')
+        body = node.body
+    return node
+
+
+def stmts(fd):
+    """body without docstrings / logging / pass"""
+    out = []
+    for s in fd.body:
+        if isinstance(s, ast.Expr) and isinstance(s.value, ast.Constant) and isinstance(s.value.value, str):
+            continue
+        if isinstance(s, ast.Pass):
+            continue
+        if isinstance(s, ast.Expr) and isinstance(s.value, ast.Call) and (U(s.value.func).startswith('logger.')):
+            continue
+        out.append(s)
+    return out
+
+
+def argnames(fd):
+    need(not fd.args.vararg and not fd.args.kwarg and not fd.args.kwonlyargs, f'{fd.name}: unexpected signature')
+    return [a.arg for a in fd.args.args]
+
+
+def kwargs_of(call, names, what):
+    need(isinstance(call, ast.Call) and not call.args, f'{what}: positional arguments')
+    kw = {k.arg: k.value for k in call.keywords}
+    need(sorted(kw) == sorted(names), f'{what}: keywords {sorted(kw)} (expected {sorted(names)})')
+    return kw
+
+
+def raises(body, exc):
+    return bool(body) and isinstance(body[-1], ast.Raise) and body[-1].exc is not None and exc in U(body[-1].exc) \
+        and all(isinstance(s, (ast.Assign, ast.Raise)) or (isinstance(s, ast.Expr) and U(s.value).startswith('logger.')) for s in body)
+
+
+# ----------------------------------------------------------------------------------------- the extractors
+def gen_names_indices():
+    rel = 'src/biogeme/expressions/idmanager.py'
+    fd = find(parse(rel), 'expressions_names_indices', rel)
+    need(argnames(fd) == ['dict_of_elements'], 'expressions_names_indices: signature changed')
+    b = stmts(fd)
+    need(len(b) == 4, f'expressions_names_indices: {len(b)} statements, expected 4')
+    m = Mini('expressions_names_indices')
+    env = {'dict_of_elements': ('dict_of_elements', ('list', ('string',)))}    # iterating / sorting a dict = its keys
+    need(isinstance(b[0], ast.Assign) and U(b[0].targets[0]) == 'indices' and isinstance(b[0].value, ast.Dict) and not b[0].value.keys,
+         'expressions_names_indices: `indices` does not start empty')
+    need(isinstance(b[1], ast.Assign) and U(b[1].targets[0]) == 'names', 'expressions_names_indices: `names` assignment changed')
+    names_c, names_t = m.expr(b[1].value, env)
+    need(names_t == ('list', ('string',)), 'expressions_names_indices: names is not a list of strings')
+    env['names'] = ('names', names_t)
+    lp = b[2]
+    need(isinstance(lp, ast.For) and not lp.orelse and isinstance(lp.target, ast.Tuple) and len(lp.target.elts) == 2
+         and all(isinstance(e, ast.Name) for e in lp.target.elts) and len(lp.body) == 1, 'expressions_names_indices: loop changed')
+    it_c, it_t = m.expr(lp.iter, env)
+    need(it_t[0] == 'list' and it_t[1][0] == 'pair', 'expressions_names_indices: loop does not iterate over pairs')
+    a_, b_ = lp.target.elts[0].id, lp.target.elts[1].id
+    env2 = dict(env)
+    env2[a_] = (a_, it_t[1][1])
+    env2[b_] = (b_, it_t[1][2])
+    st = lp.body[0]
+    need(isinstance(st, ast.Assign) and isinstance(st.targets[0], ast.Subscript) and U(st.targets[0].value) == 'indices',
+         'expressions_names_indices: loop body is not indices[..] = ..')
+    k_c, k_t = m.expr(st.targets[0].slice, env2)
+    v_c, v_t = m.expr(st.value, env2)
+    need(k_t == ('string',) and v_t == ('Z',), f'expressions_names_indices: indices[{k_t}] = {v_t}')
+    rt = b[3]
+    need(isinstance(rt, ast.Return) and isinstance(rt.value, ast.Call) and U(rt.value.func) == 'ElementsTuple', 'expressions_names_indices: return changed')
+    kw = kwargs_of(rt.value, ['expressions', 'indices', 'names'], 'ElementsTuple')
+    env['indices'] = ('indices', ('dict', ('Z',)))
+    need(U(kw['expressions']) == 'dict_of_elements', 'expressions_names_indices: expressions field changed')
+    ri_c, ri_t = m.expr(kw['indices'], env)
+    rn_c, rn_t = m.expr(kw['names'], env)
+    need(ri_t == ('dict', ('Z',)) and rn_t == ('list', ('string',)), 'expressions_names_indices: result types changed')
+    return (f'(* from {rel}:{fd.lineno} expressions_names_indices (a dict is given by the list of its keys) *)\n'
+            'Definition expressions_names_indices (dict_of_elements : list string) : list (string * Z) * list string :=\n'
+            '  let indices : list (string * Z) := [] in\n'
+            f'  let names := {names_c} in\n'
+            f"  let indices := fold_left (fun indices '({a_}, {b_}) => dict_set indices {k_c} {v_c}) {it_c} indices in\n"
+            f'  ({ri_c}, {rn_c}).\n')
+
+
+def gen_convert_to_dict():
+    rel = 'src/biogeme/function_output.py'
+    fd = find(parse(rel), 'convert_to_dict', rel)
+    need(argnames(fd) == ['the_sequence', 'the_map'], 'convert_to_dict: signature changed')
+    b = stmts(fd)
+    need(len(b) == 3 and isinstance(b[0], ast.If) and not b[0].orelse and raises(b[0].body, 'IndexError'), 'convert_to_dict: range check changed')
+    m = Mini('convert_to_dict', defaults={('tok', 'A'): 'd'})
+    env = {'the_sequence': ('the_sequence', ('list', ('tok', 'A'))), 'the_map': ('the_map', ('dict', ('Z',)))}
+    t_c, t_t = m.expr(b[0].test, env)
+    need(t_t == ('bool',), 'convert_to_dict: test is not boolean')
+    need(isinstance(b[1], ast.Assign) and U(b[1].targets[0]) == 'result' and isinstance(b[2], ast.Return) and U(b[2].value) == 'result',
+         'convert_to_dict: result construction changed')
+    r_c, r_t = m.expr(b[1].value, env)
+    need(r_t == ('dict', ('tok', 'A')), f'convert_to_dict: result has type {r_t}')
+    return (f'(* from {rel}:{fd.lineno} convert_to_dict (None = IndexError) *)\n'
+            'Definition convert_to_dict {A} (d : A) (the_sequence : list A) (the_map : list (string * Z)) : option (list (string * A)) :=\n'
+            f'  if {t_c} then None\n  else let result := {r_c} in Some result.\n')
+
+
+AGG_FIELDS = ['function', 'gradient', 'hessian', 'bhhh']
+DIS_FIELDS = ['functions', 'gradients', 'hessians', 'bhhhs']
+TF, TG, TH = ('tok', 'F'), ('tok', 'G'), ('tok', 'H')
+DEFAULTS = {TF: 'dF', TG: 'dG', TH: 'dH'}
+
+
+def gen_unique_entry():
+    rel = 'src/biogeme/function_output.py'
+    tree = parse(rel)
+    ln = find(tree, 'BiogemeDisaggregateFunctionOutput.__len__', rel)
+    lb = stmts(ln)
+    need(len(lb) == 1 and isinstance(lb[0], ast.Return), '__len__ changed')
+    fd = find(tree, 'BiogemeDisaggregateFunctionOutput.unique_entry', rel)
+    b = stmts(fd)
+    need(len(b) == 2 and isinstance(b[0], ast.If) and not b[0].orelse and len(b[0].body) == 1 and isinstance(b[0].body[0], ast.Return)
+         and isinstance(b[1], ast.Return) and U(b[1].value) == 'None', 'unique_entry: shape changed')
+    env = {'self.functions': ('functions', ('list', TF)), 'self.gradients': ('gradients', ('opt', ('list', TG))),
+           'self.hessians': ('hessians', ('opt', ('list', TH))), 'self.bhhhs': ('bhhhs', ('opt', ('list', TH)))}
+
+    def len_self(mm, n, e):
+        need(len(n.args) == 1 and U(n.args[0]) == 'self', 'unique_entry: len of something else than self')
+        return mm.expr(lb[0].value, e)
+    m = Mini('unique_entry', defaults=DEFAULTS)
+    base_len = Mini.expr
+
+    def call_len(mm, n, e):
+        if len(n.args) == 1 and U(n.args[0]) == 'self':
+            return len_self(mm, n, e)
+        a, ta = mm.expr(n.args[0], e)
+        need(ta[0] == 'list', 'len of a non-list')
+        return f'(Z.of_nat (List.length {a}))', ('Z',)
+    m.calls['len'] = call_len
+    t_c, t_t = m.expr(b[0].test, env)
+    need(t_t == ('bool',), 'unique_entry: test is not boolean')
+    call = b[0].body[0].value
+    need(isinstance(call, ast.Call) and U(call.func) == 'BiogemeFunctionOutput', 'unique_entry: does not build a BiogemeFunctionOutput')
+    kw = kwargs_of(call, AGG_FIELDS, 'unique_entry')
+    parts = []
+    for fld, want in zip(AGG_FIELDS, (TF, ('opt', TG), ('opt', TH), ('opt', TH))):
+        c, t = m.expr(kw[fld], env)
+        need(t == want, f'unique_entry: field {fld} has type {t}, expected {want}')
+        parts.append(c)
+    return (f'(* from {rel}:{fd.lineno} BiogemeDisaggregateFunctionOutput.unique_entry *)\n'
+            'Definition unique_entry {F G H} (dF : F) (dG : G) (dH : H) (functions : list F) (gradients : option (list G))\n'
+            '    (hessians bhhhs : option (list H)) : option (F * option G * option H * option H) :=\n'
+            f'  if {t_c} then Some ({", ".join(parts)}) else None.\n')
+
+
+def gen_select():
+    rel = 'src/biogeme/expressions/calculator.py'
+    fd = find(parse(rel), 'calculate_function_and_derivatives', rel)
+    need(argnames(fd) == ['the_expression', 'database', 'calculate_gradient', 'calculate_hessian', 'calculate_bhhh', 'aggregation'],
+         'calculate_function_and_derivatives: signature changed')
+    b = stmts(fd)
+    idx = [i for i, s in enumerate(b) if isinstance(s, ast.Assign) and U(s.value) == 'the_cpp.getResults()']
+    need(len(idx) == 1, 'calculate_function_and_derivatives: getResults() call not found')
+    i0 = idx[0]
+    need(U(b[i0].targets[0]).replace('(', '').replace(')', '') == 'f, g, h, b', 'calculate_function_and_derivatives: getResults() unpacked differently')
+    # the call that computes
+    calc = b[i0 - 1]
+    need(isinstance(calc, ast.Expr) and isinstance(calc.value, ast.Call) and U(calc.value.func) == 'the_cpp.calculate', 'the_cpp.calculate(...) not found before getResults()')
+    ckw = kwargs_of(calc.value, ['gradient', 'hessian', 'bhhh', 'aggregation'], 'the_cpp.calculate')
+    flags = {'calculate_gradient': ('calculate_gradient', ('bool',)), 'calculate_hessian': ('calculate_hessian', ('bool',)),
+             'calculate_bhhh': ('calculate_bhhh', ('bool',)), 'aggregation': ('aggregation', ('bool',))}
+    m = Mini('calculate_function_and_derivatives', defaults=DEFAULTS)
+    fl = []
+    for k in ('gradient', 'hessian', 'bhhh', 'aggregation'):
+        c, t = m.expr(ckw[k], flags)
+        need(t == ('bool',), 'engine flag is not boolean')
+        fl.append(c)
+    tail = b[i0 + 1:]
+    need(len(tail) == 9, f'calculate_function_and_derivatives: {len(tail)} statements after getResults(), expected 9')
+    env = dict(flags)
+    env.update({'f': ('f', ('list', TF)), 'g': ('g', ('list', TG)), 'h': ('h', ('list', TH)), 'b': ('b', ('list', TH)),
+                'database': ('database', ('opt', ('tok', 'unit')))})
+    lets = []
+    for s, nm, want in zip(tail[:3], ('gres', 'hres', 'bhhhres'), (TG, TH, TH)):
+        need(isinstance(s, ast.Assign) and U(s.targets[0]) == nm, f'calculate_function_and_derivatives: expected assignment of {nm}')
+        c, t = m.expr(s.value, env)
+        need(t == ('opt', ('list', want)), f'{nm} has type {t}')
+        env[nm] = (nm, t)
+        lets.append(f'  let {nm} := {c} in\n')
+    ag = tail[3]
+    need(isinstance(ag, ast.If) and not ag.orelse and len(ag.body) == 2 and isinstance(ag.body[0], ast.Assign) and U(ag.body[0].targets[0]) == 'result'
+         and isinstance(ag.body[1], ast.Return) and U(ag.body[1].value) == 'BiogemeFunctionOutputSmartOutputProxy(result)', 'aggregated branch changed')
+    a_c, a_t = m.expr(ag.test, env)
+    need(a_t == ('bool',), 'aggregation test is not boolean')
+    call = ag.body[0].value
+    need(isinstance(call, ast.Call) and U(call.func) == 'BiogemeFunctionOutput', 'aggregated branch does not build a BiogemeFunctionOutput')
+    kw = kwargs_of(call, AGG_FIELDS, 'aggregated BiogemeFunctionOutput')
+    aparts = []
+    for fld, want in zip(AGG_FIELDS, (TF, ('opt', TG), ('opt', TH), ('opt', TH))):
+        c, t = m.expr(kw[fld], env)
+        need(t == want, f'aggregated field {fld} has type {t}, expected {want}')
+        aparts.append(c)
+    ds = tail[4]
+    need(isinstance(ds, ast.Assign) and U(ds.targets[0]) == 'disaggregate_result' and isinstance(ds.value, ast.Call)
+         and U(ds.value.func) == 'BiogemeDisaggregateFunctionOutput', 'disaggregate record changed')
+    kw = kwargs_of(ds.value, DIS_FIELDS, 'BiogemeDisaggregateFunctionOutput')
+    dparts = []
+    for fld, want in zip(DIS_FIELDS, (('list', TF), ('opt', ('list', TG)), ('opt', ('list', TH)), ('opt', ('list', TH)))):
+        c, t = m.expr(kw[fld], env)
+        need(t == want, f'disaggregate field {fld} has type {t}, expected {want}')
+        dparts.append(c)
+    db = tail[5]
+    need(isinstance(db, ast.If) and not db.orelse and len(db.body) == 1 and isinstance(db.body[0], ast.Return)
+         and U(db.body[0].value) == 'BiogemeDisaggregateFunctionOutputSmartOutputProxy(disaggregate_result)', 'per-observation return changed')
+    d_c, d_t = m.expr(db.test, env)
+    need(d_t == ('bool',), 'database test is not boolean')
+    need(U(tail[6]) == 'result = disaggregate_result.unique_entry()', 'unique_entry call changed')
+    need(isinstance(tail[7], ast.If) and U(tail[7].test) == 'result is None' and not tail[7].orelse and raises(tail[7].body, 'BiogemeError'),
+         'refusal of several entries without database changed')
+    need(U(tail[8]) == 'return BiogemeFunctionOutputSmartOutputProxy(result)', 'final return changed')
+    return (f'(* from {rel}:{calc.lineno} calculate_function_and_derivatives: flags handed to the engine *)\n'
+            'Definition engine_flags (calculate_gradient calculate_hessian calculate_bhhh aggregation : bool) : bool * bool * bool * bool :=\n'
+            f'  ({", ".join(fl)}).\n'
+            f'(* from {rel}:{b[i0].lineno} calculate_function_and_derivatives: what is returned from the engine results (f, g, h, b) *)\n'
+            'Definition select {F G H} (dF : F) (dG : G) (dH : H) (calculate_gradient calculate_hessian calculate_bhhh aggregation : bool)\n'
+            '    (database : option unit) (f : list F) (g : list G) (h b : list H) : pack_result F G H :=\n'
+            + ''.join(lets) +
+            f'  if {a_c} then RAgg ({", ".join(aparts)})\n'
+            f'  else let disaggregate_result := ({", ".join(dparts)}) in\n'
+            f'  if {d_c} then RDis disaggregate_result\n'
+            "  else let '(fs_, gs_, hs_, bs_) := disaggregate_result in\n"
+            '       match unique_entry dF dG dH fs_ gs_ hs_ bs_ with Some result => RAgg result | None => RErr end.\n')
+
+
+def gen_gvd():
+    rel = 'src/biogeme/expressions/base_expressions.py'
+    fd = find(parse(rel), 'Expression.get_value_and_derivatives', rel)
+    need(argnames(fd) == ['self', 'betas', 'database', 'number_of_draws', 'gradient', 'hessian', 'bhhh', 'aggregation', 'prepare_ids', 'named_results'],
+         'get_value_and_derivatives: signature changed')
+    b = stmts(fd)
+    flags = {k: (k, ('bool',)) for k in ('gradient', 'hessian', 'bhhh', 'aggregation')}
+    m = Mini('get_value_and_derivatives')
+    refusals = [s for s in b if isinstance(s, ast.If) and not s.orelse and raises(s.body, 'BiogemeError')
+                and any(isinstance(x, ast.Name) and x.id in ('gradient', 'hessian', 'bhhh') for x in ast.walk(s.test))]
+    need(len(refusals) == 1, f'get_value_and_derivatives: {len(refusals)} refusals on the derivative flags, expected 1')
+    r_c, r_t = m.expr(refusals[0].test, flags)
+    need(r_t == ('bool',), 'refusal test is not boolean')
+    calls = [s for s in b if isinstance(s, ast.Assign) and isinstance(s.value, ast.Call) and U(s.value.func) == 'calculate_function_and_derivatives']
+    need(len(calls) == 1 and U(calls[0].targets[0]) == 'results', 'get_value_and_derivatives: call to calculate_function_and_derivatives changed')
+    need(b.index(refusals[0]) < b.index(calls[0]), 'get_value_and_derivatives: the refusal comes after the calculation')
+    kw = kwargs_of(calls[0].value, ['the_expression', 'database', 'calculate_gradient', 'calculate_hessian', 'calculate_bhhh', 'aggregation'],
+                   'calculate_function_and_derivatives')
+    need(U(kw['the_expression']) == 'self' and U(kw['database']) == 'database', 'get_value_and_derivatives: expression / database not passed on')
+    fl = []
+    for k in ('calculate_gradient', 'calculate_hessian', 'calculate_bhhh', 'aggregation'):
+        c, t = m.expr(kw[k], flags)
+        need(t == ('bool',), 'flag is not boolean')
+        fl.append(c)
+    # the flags are not reassigned before the call
+    for s in b[:b.index(calls[0])]:
+        for x in ast.walk(s):
+            if isinstance(x, ast.Name) and isinstance(x.ctx, ast.Store) and x.id in flags:
+                raise Untranslatable(f'get_value_and_derivatives: flag {x.id} is reassigned')
+    # named results: both wrappers receive the free-parameter index map
+    nm = [s for s in b if isinstance(s, ast.If) and U(s.test) == 'named_results']
+    need(len(nm) == 1 and b.index(nm[0]) > b.index(calls[0]), 'get_value_and_derivatives: named_results branch changed')
+    wraps = [x for x in ast.walk(nm[0]) if isinstance(x, ast.Call) and U(x.func) in ('NamedBiogemeFunctionOutput', 'NamedBiogemeDisaggregateFunctionOutput')]
+    need(sorted(U(x.func) for x in wraps) == ['NamedBiogemeDisaggregateFunctionOutput', 'NamedBiogemeFunctionOutput'], 'named wrappers changed')
+    for x in wraps:
+        k2 = kwargs_of(x, ['function_output', 'mapping'], U(x.func))
+        need(U(k2['function_output']) == 'results' and U(k2['mapping']) == 'self.id_manager.free_betas.indices',
+             'named wrapper does not receive (results, free_betas.indices)')
+    rets = [s for s in b if isinstance(s, ast.Return)]
+    need(len(rets) == 1 and U(rets[0].value) == 'results' and b[-1] is rets[0], 'get_value_and_derivatives: does not return `results`')
+    return (f'(* from {rel}:{refusals[0].lineno} Expression.get_value_and_derivatives: the request refused with BiogemeError *)\n'
+            f'Definition gvd_refuses (gradient hessian bhhh : bool) : bool := {r_c}.\n'
+            f'(* from {rel}:{calls[0].lineno}: flags handed to calculate_function_and_derivatives *)\n'
+            'Definition gvd_flags (gradient hessian bhhh aggregation : bool) : bool * bool * bool * bool :=\n'
+            f'  ({", ".join(fl)}).\n')
+
+
+def gen_clad():
+    rel = 'src/biogeme/biogeme.py'
+    fd = find(parse(rel), 'BIOGEME.calculate_likelihood_and_derivatives', rel)
+    need(argnames(fd) == ['self', 'x', 'scaled', 'hessian', 'bhhh', 'batch'], 'calculate_likelihood_and_derivatives: signature changed')
+    b = stmts(fd)
+    calls = [s for s in b if isinstance(s, ast.Assign) and isinstance(s.value, ast.Call) and U(s.value.func) == 'self.theC.calculateLikelihoodAndDerivatives']
+    need(len(calls) == 1 and U(calls[0].targets[0]).replace('(', '').replace(')', '') == 'f, g, h, bh', 'engine call changed')
+    args = calls[0].value.args
+    need(len(args) == 8 and not calls[0].value.keywords, 'engine call: number of arguments changed')
+    need([U(a) for a in args[:2]] == ['x', 'self.id_manager.fixed_betas_values'] and [U(a) for a in args[3:]] == ['g', 'h', 'bh', 'hessian', 'bhhh'],
+         'engine call: arguments changed: ' + ', '.join(U(a) for a in args))
+    m = Mini('calculate_likelihood_and_derivatives')
+    ids_c, ids_t = m.expr(args[2], {'self.id_manager.free_betas.indices': ('indices', ('dict', ('Z',)))})
+    need(ids_t == ('list', ('Z',)), 'literal ids are not a list of integers')
+    i0 = b.index(calls[0])
+    for s in b[i0 + 1:]:
+        for x in ast.walk(s):
+            if isinstance(x, ast.Name) and isinstance(x.ctx, ast.Store) and x.id in ('f', 'g', 'h', 'bh', 'scaled'):
+                raise Untranslatable(f'calculate_likelihood_and_derivatives: {x.id} is reassigned after the engine call')
+    sc = [s for s in b[i0 + 1:] if isinstance(s, ast.If) and U(s.test) == 'scaled']
+    need(len(sc) == 1 and not sc[0].orelse and b.index(sc[0]) == len(b) - 3, 'scaling branch changed')
+    sb = sc[0].body
+    need(len(sb) == 4 and U(sb[0].targets[0]) == 'sample_size' and isinstance(sb[1], ast.If) and not sb[1].orelse and raises(sb[1].body, 'BiogemeError')
+         and isinstance(sb[2], ast.Assign) and U(sb[2].targets[0]) == 'result' and U(sb[3]) == 'return BiogemeFunctionOutputSmartOutputProxy(result)',
+         'scaling branch: statements changed')
+    env = {'f': ('f', ('R',)), 'g': ('g', ('vec',)), 'h': ('h', ('mat',)), 'bh': ('bh', ('mat',))}
+
+    def sample(mm, n, e):
+        need(not n.args and not n.keywords, 'get_sample_size with arguments')
+        return 'n_obs', ('Z',)
+    m.calls['self.database.get_sample_size'] = sample
+    ss_c, ss_t = m.expr(sb[0].value, env)
+    need(ss_t == ('R',), 'sample size is not converted to float')
+    env['sample_size'] = ('sample_size', ('R',))
+    z_c, z_t = m.expr(sb[1].test, env)
+    need(z_t == ('bool',), 'zero test is not boolean')
+
+    def record(call, what):
+        need(isinstance(call, ast.Call) and U(call.func) == 'BiogemeFunctionOutput', f'{what}: does not build a BiogemeFunctionOutput')
+        kw = kwargs_of(call, AGG_FIELDS, what)
+        parts = []
+        for fld, want in zip(AGG_FIELDS, (('R',), ('vec',), ('mat',), ('mat',))):
+            c, t = m.expr(kw[fld], env)
+            need(t == want, f'{what}: field {fld} has type {t}')
+            parts.append(c)
+        return ', '.join(parts)
+    scaled_rec = record(sb[2].value, 'scaled record')
+    need(isinstance(b[-2], ast.Assign) and U(b[-2].targets[0]) == 'result' and U(b[-1]) == 'return BiogemeFunctionOutputSmartOutputProxy(result)',
+         'unscaled return changed')
+    plain_rec = record(b[-2].value, 'unscaled record')
+    return (f'(* from {rel}:{calls[0].lineno} calculate_likelihood_and_derivatives: literal ids handed to the engine *)\n'
+            f'Definition clad_literal_ids (indices : list (string * Z)) : list Z := {ids_c}.\n'
+            f'(* from {rel}:{sc[0].lineno} calculate_likelihood_and_derivatives: scaling (None = BiogemeError) *)\n'
+            'Definition clad_scale (scaled : bool) (n_obs : Z) (f : R) (g : vec) (h bh : mat) : option (R * vec * mat * mat) :=\n'
+            f'  if scaled then\n    let sample_size := {ss_c} in\n    if {z_c} then None else Some ({scaled_rec})\n'
+            f'  else Some ({plain_rec}).\n')
+
+
+def gen_named():
+    rel = 'src/biogeme/function_output.py'
+    tree = parse(rel)
+    out = []
+
+    def conv(mm, n, e):
+        need(len(n.args) == 2 and not n.keywords, 'convert_to_dict: arguments changed')
+        a, ta = mm.expr(n.args[0], e)
+        mp, tm = mm.expr(n.args[1], e)
+        need(ta[0] == 'list' and tm == ('dict', ('Z',)), f'convert_to_dict({ta}, {tm})')
+        return f'(convert_to_dict {mm.default(ta[1], n)} {a} {mp})', ('opt', ('dict', ta[1]))
+
+    def fields(qual, base_env, targets):
+        fd = find(tree, qual, rel)
+        got = {}
+        for s in ast.walk(fd):
+            tgt = None
+            if isinstance(s, ast.Assign) and len(s.targets) == 1:
+                tgt = s.targets[0]
+            elif isinstance(s, ast.AnnAssign) and s.value is not None:
+                tgt = s.target
+            if tgt is not None and U(tgt) in targets:
+                need(U(tgt) not in got, f'{qual}: {U(tgt)} assigned twice')
+                m = Mini(qual, calls={'convert_to_dict': conv})
+                got[U(tgt)] = m.expr(s.value, base_env)
+        need(sorted(got) == sorted(targets), f'{qual}: fields {sorted(got)} (expected {sorted(targets)})')
+        return got, fd.lineno
+    R_ = ('R',)
+    mapping = {'mapping': ('mapping', ('dict', ('Z',)))}
+    env_agg = dict(mapping)
+    env_agg.update({'function_output.gradient': ('gradient', ('opt', ('list', R_))), 'function_output.hessian': ('hessian', ('opt', ('list', ('list', R_)))),
+                    'function_output.bhhh': ('bhhh', ('opt', ('list', ('list', R_))))})
+    g1, l1 = fields('NamedFunctionOutput.__init__', env_agg, ['self.gradient', 'self.hessian'])
+    g2, l2 = fields('NamedBiogemeFunctionOutput.__init__', env_agg, ['self.bhhh'])
+    # NamedBiogemeFunctionOutput must delegate the first two to its parent
+    sup = [U(s) for s in stmts(find(tree, 'NamedBiogemeFunctionOutput.__init__', rel))]
+    need(sup and sup[0].replace(' ', '') == 'super().__init__(function_output=function_output,mapping=mapping)', 'NamedBiogemeFunctionOutput does not delegate to NamedFunctionOutput')
+    tv = ('opt', ('opt', ('dict', R_)))
+    tm = ('opt', ('opt', ('dict', ('opt', ('dict', R_)))))
+    need(g1['self.gradient'][1] == tv and g1['self.hessian'][1] == tm and g2['self.bhhh'][1] == tm, 'named aggregated outputs: types changed')
+    out.append(f'(* from {rel}:{l1} NamedFunctionOutput / :{l2} NamedBiogemeFunctionOutput (outer None = not asked, inner None = IndexError) *)\n'
+               'Definition named_gradient (gradient : option (list R)) (mapping : list (string * Z)) := ' + g1['self.gradient'][0] + '.\n'
+               'Definition named_hessian (hessian : option (list (list R))) (mapping : list (string * Z)) := ' + g1['self.hessian'][0] + '.\n'
+               'Definition named_bhhh (bhhh : option (list (list R))) (mapping : list (string * Z)) := ' + g2['self.bhhh'][0] + '.\n')
+    env_dis = dict(mapping)
+    env_dis.update({'function_output.gradients': ('gradients', ('opt', ('list', ('list', R_)))),
+                    'function_output.hessians': ('hessians', ('opt', ('list', ('list', ('list', R_))))),
+                    'function_output.bhhhs': ('bhhhs', ('opt', ('list', ('list', ('list', R_)))))})
+    g3, l3 = fields('NamedBiogemeDisaggregateFunctionOutput.__init__', env_dis, ['self.gradients', 'self.hessians', 'self.bhhhs'])
+    out.append(f'(* from {rel}:{l3} NamedBiogemeDisaggregateFunctionOutput *)\n'
+               'Definition named_gradients (gradients : option (list (list R))) (mapping : list (string * Z)) := ' + g3['self.gradients'][0] + '.\n'
+               'Definition named_hessians (hessians : option (list (list (list R)))) (mapping : list (string * Z)) := ' + g3['self.hessians'][0] + '.\n'
+               'Definition named_bhhhs (bhhhs : option (list (list (list R)))) (mapping : list (string * Z)) := ' + g3['self.bhhhs'][0] + '.\n')
+    return ''.join(out)
+
+
+def gen_pack_text():
+    return ('From Coq Require Import Reals.\nFrom BV Require Import Model.PyBase Model.IdMgr Model.Pack.\nOpen Scope Z_scope.\n'
+            + gen_names_indices() + gen_convert_to_dict() + gen_unique_entry() + gen_select() + gen_gvd() + gen_clad() + gen_named())
 
 
 def gen_pack(ctx):
-    pass
+    ctx.gen('Pack', gen_pack_text())
 
 
+# ----------------------------------------------------------------------------------------- stream pack
 def stream_pack(ctx):
     pass
